@@ -562,10 +562,11 @@ LEVEL_TEXT = ("Machine-checked proof (Coq) over an executable graph-level model 
               "reactant and product graphs are the input graphs renamed by one injective map (canonical position on reactant atoms, fresh numbers "
               "after them on product atoms without partner), mapping_pairs are exactly the shared atoms, and the ITS of the canonical reaction is "
               "isomorphic to the ITS of the input; the validator's matcher answers true exactly when the two ITS graphs / reaction centres are "
-              "isomorphic on typesGH and bond-order pairs, hence accepts every renumbering and rejects every swapped mapping that is not "
-              "equivalent; the graph-level balance check is true exactly when all element counts (with hydrogens) and the total charge agree. "
-              "Numbering independence and fixed point are proved at graph level relative to an explicit invariance premise on the graph "
-              "canonicaliser and for reactions whose product atoms all have a reactant partner (_partial). The model is compared with the Python "
+              "isomorphic on typesGH and bond-order pairs, hence accepts every renumbering (also with re-ordered atoms and rewritten atom_map "
+              "attributes) and rejects every swapped mapping that is not equivalent; the graph-level balance check is true exactly when all element counts (with hydrogens) and the total charge agree. "
+              "Numbering independence (for renamings that keep the relative order of product atoms without reactant partner) and fixed point "
+              "(all reactions) are proved at graph level relative to an explicit invariance premise on the graph canonicaliser (_partial). "
+              "The model is compared with the Python "
               "code on every run (canonical graphs, mapping pairs, verdicts, reaction centres, element counts; back-ends wl and nauty).")
 LEVEL_NOTE = ("Not proved, only tested on every run (independent oracle: plain RDKit reading + VF2 + Counter): the string-level clauses that live in "
               "RDKit - Standardize.fit idempotent/invariant, canonical_rsmi fixed point and numbering independence (canonical SMILES writer), "
